@@ -36,6 +36,10 @@ pub fn install_panic_hook() {
         } else {
             "<non-string panic>".to_string()
         };
+        // a panic in the harness itself is a tool error and must be visible
+        if !loc.starts_with("/repo/") {
+            eprintln!("HARNESS PANIC: {} @ {}", msg, loc);
+        }
         if let Ok(mut p) = PANICS.lock() {
             p.push(format!("{} @ {}", msg, loc));
         }
@@ -317,11 +321,15 @@ impl Session {
         let tls = cfg["tls"].as_bool().unwrap_or(false);
         let mut tries = 0;
         loop {
-            let mut port = NEXT_PORT.fetch_add(1, Ordering::SeqCst);
-            if port < 1024 {
-                NEXT_PORT.store(21000, Ordering::SeqCst);
-                port = 21000;
-            }
+            // a port the kernel says is free right now (the fixed ranges of earlier versions ran into
+            // each other once a shard replays thousands of behaviours)
+            let port = match std::net::TcpListener::bind("127.0.0.1:0").and_then(|l| l.local_addr()) {
+                Ok(a) => a.port(),
+                Err(_) => {
+                    let p = NEXT_PORT.fetch_add(1, Ordering::SeqCst);
+                    if p < 1024 { 21000 } else { p }
+                }
+            };
             let config = build_config(cfg, port);
             let name = config.name.clone();
             match run_server(config).await {
@@ -348,6 +356,20 @@ impl Session {
 
     pub async fn stop(mut self) {
         for (_, c) in self.clients.iter_mut() {
+            // abortive close: thousands of sessions per minute must not pile up in TIME_WAIT
+            // (the ephemeral ports of 127.0.0.K are a finite resource)
+            if c.stream.is_some() {
+                let lg = libc::linger { l_onoff: 1, l_linger: 0 };
+                unsafe {
+                    libc::setsockopt(
+                        c.fd,
+                        libc::SOL_SOCKET,
+                        libc::SO_LINGER,
+                        &lg as *const _ as *const libc::c_void,
+                        std::mem::size_of::<libc::linger>() as libc::socklen_t,
+                    );
+                }
+            }
             c.stream = None;
         }
         // let the connection tasks see EOF and finish
